@@ -7,16 +7,17 @@ from ..model import resolve_addr, strip_casts, const_int, loaded_from
 from ..core import AnalysisBroken
 from .. import expr
 
-ARRAY = "vlo_array"
+# (function that appends elements, the array global, the function that releases every element up to the length)
+ARRAYS = [("vlo_array_expand", "vlo_array", "vlo_array_fin"), ("sit_dist_insert", "sit_dist_vec_vlo", "sit_dist_set_fin")]
 
 
-def _is_array(f, op):
-    """operand denotes the array object itself: &vlo_array (C) or the value of the pointer vlo_array (C++)"""
+def _is_array(f, op, array):
+    """operand denotes the array object itself: &array (C) or the value of the pointer array (C++)"""
     o = strip_casts(f, op)
-    if o.get("k") == "g" and o.get("v") == ARRAY:
+    if o.get("k") == "g" and o.get("v") == array:
         return True
     lp = loaded_from(f, o)
-    return lp is not None and lp.root == ("g", ARRAY) and not lp.steps
+    return lp is not None and lp.root == ("g", array) and not lp.steps
 
 
 def _callee_effect(p, g):
@@ -43,23 +44,39 @@ def _callee_effect(p, g):
 
 
 def rule_R17(ctx, rep, config="c-lib", tag=""):
-    rep.rule("R17", "vlo_array_expand: on every path, at every call that may fail (a longjmp caller is reachable from it) the length of vlo_array is not larger than at "
-                    "function entry -- the slot becomes visible to vlo_array_fin only after the container in it was created (lengths followed as constant deltas of "
-                    "vlo_free through the inlined macros in C and through summaries of vlo::expand / vlo::shorten in C++)")
+    rep.rule("R17", "arrays of owned containers (vlo_array in vlo_array_expand, sit_dist_vec_vlo in sit_dist_insert; their _fin functions release every element up to "
+                    "the length): on every path, at every call that may fail (a longjmp caller is reachable from it) the length of the array is not larger than at "
+                    "function entry / at the start of the loop iteration -- a slot becomes visible to the _fin function only after the container in it was created "
+                    "(lengths followed as linear deltas of vlo_free through the inlined macros in C and through summaries of vlo::expand / vlo::shorten in C++; "
+                    "loops are followed for one iteration, every iteration adding created elements only)")
     p = ctx.prog(config)
-    f = p.fn("vlo_array_expand")
+    for (fname, array, fin) in ARRAYS:
+        _check(p, rep, tag, fname, array)
+
+
+def _check(p, rep, tag, fname, array):
+    f = p.fn(fname)
     rep.cover(p, [f.name])
-    if f.loops():
-        raise AnalysisBroken("R17: vlo_array_expand has a loop")
+    back = set()
+    for L in f.loops():
+        for bn in L["body"]:
+            if L["header"] in f.bmap[bn].succs:
+                back.add((bn, L["header"]))
     summaries = {}
     n_throw = 0
     n_len = 0
     bad = []
-    # enumerate paths
-    stack = [(f.entry.name, 0, [])]
+    unknown = []
+    zero = expr.Lin(0)
+    # enumerate paths (a back edge ends a path)
+    stack = [(f.entry.name, zero, [])]
     npaths = 0
+    visited = set()
     while stack:
         bn, delta, trail = stack.pop()
+        if (bn, delta.key()) in visited:
+            continue
+        visited.add((bn, delta.key()))
         b = f.bmap[bn]
         outs = [delta]   # a block may fork the state only through callee summaries with two effects
         for i in b.insts:
@@ -67,7 +84,7 @@ def rule_R17(ctx, rep, config="c-lib", tag=""):
             for d in outs:
                 if i.op == "store":
                     pa = resolve_addr(f, i.ops[1])
-                    if pa.root == ("g", ARRAY) and (pa.last_field() or "").endswith("vlo_free"):
+                    if pa.root == ("g", array) and (pa.last_field() or "").endswith("vlo_free"):
                         n_len += 1
                         # `cond ? a : b' / a merged value: every alternative separately
                         alts = [i.ops[0]]
@@ -78,14 +95,14 @@ def rule_R17(ctx, rep, config="c-lib", tag=""):
                             alts = [vi_.ops[1], vi_.ops[2]]
                         for a_ in alts:
                             v = expr.lin(f, a_, 0, 1)
-                            fa = [a for a in v.t if a.endswith("vlo_free]") and a.startswith("L[@" + ARRAY)]
-                            sa_ = [a for a in v.t if a.endswith("vlo_start]") and a.startswith("L[@" + ARRAY)]
-                            if len(fa) == 1 and len(v.t) == 1 and v.t[fa[0]] == 1:
-                                nxt.append(d + v.c)
+                            fa = [a for a in v.t if a.endswith("vlo_free]") and a.startswith("L[@" + array)]
+                            sa_ = [a for a in v.t if a.endswith("vlo_start]") and a.startswith("L[@" + array)]
+                            if len(fa) == 1 and v.t[fa[0]] == 1 and not sa_:
+                                nxt.append(d.add(v).add(expr.Lin(0, {fa[0]: 1}), -1))
                             elif len(sa_) == 1 and len(v.t) == 1 and v.c == 0:
-                                nxt.append(min(d, 0))   # emptied: not longer than at entry
+                                nxt.append(d if (d.is_const() and d.c <= 0) else zero)   # emptied: not longer than at entry
                             else:
-                                raise AnalysisBroken("R17: store to the length of vlo_array of a form the rule does not know (%r) at %s" % (v, i.where()))
+                                raise AnalysisBroken("R17: store to the length of %s of a form the rule does not know (%r) at %s" % (array, v, i.where()))
                         continue
                     nxt.append(d)
                 elif i.is_call():
@@ -93,10 +110,12 @@ def rule_R17(ctx, rep, config="c-lib", tag=""):
                     throws = p.call_may_throw(f, i)
                     if throws:
                         n_throw += 1
-                        if d > 0:
-                            bad.append((i, d, trail + [bn]))
+                        if not d.is_const():
+                            unknown.append((i, d))
+                        elif d.c > 0:
+                            bad.append((i, d.c, trail + [bn]))
                     effs = None
-                    if i.args and _is_array(f, i.args[0]):
+                    if i.args and _is_array(f, i.args[0], array):
                         for t in targets:
                             g = p.m.functions.get(t)
                             if g is None or g.decl:
@@ -107,38 +126,45 @@ def rule_R17(ctx, rep, config="c-lib", tag=""):
                                 effs = summaries[t]
                     if effs:
                         n_len += 1
-                        a1 = const_int(i.args[1]) if len(i.args) > 1 else None
+                        a1 = expr.lin(f, i.args[1], 0, 1) if len(i.args) > 1 else None
                         for e in effs:
                             if e[0] == "reset":
-                                nxt.append(min(d, 0))
+                                nxt.append(d if (d.is_const() and d.c <= 0) else zero)
                             elif a1 is None:
-                                raise AnalysisBroken("R17: length change by a non-constant amount at %s" % i.where())
+                                raise AnalysisBroken("R17: length change without an amount at %s" % i.where())
                             else:
-                                nxt.append(d + e[1] * a1)
+                                nxt.append(d.add(a1, e[1]))
                     else:
                         nxt.append(d)
                 else:
                     nxt.append(d)
-            outs = sorted(set(nxt))
+            outs = list(dict((x.key(), x) for x in nxt).values())
         if not b.succs:
             npaths += len(outs)
         for s_ in b.succs:
+            if (bn, s_) in back:
+                npaths += len(outs)
+                continue
             for d in outs:
                 stack.append((s_, d, trail + [bn]))
+    if unknown:
+        raise AnalysisBroken("R17: the length of %s differs from its entry value by a non-constant amount (%r) at the call at %s, which may fail" % (
+            array, unknown[0][1], unknown[0][0].where()))
     seen = set()
+    key = tag + fname + "/slot-visible-before-created"
     for (i, d, trail) in bad:
         if i.id in seen:
             continue
         seen.add(i.id)
-        rep.violation("R17", tag + "vlo_array_expand/slot-visible-before-created", "vlo_array is already %d bytes longer when %s is called, which may fail: the error exit runs "
-                      "vlo_array_fin over a slot that holds no container yet (release of an uninitialised object)" % (d, i.callee or "a function pointer"),
+        rep.violation("R17", key, "%s is already %d bytes longer when %s is called, which may fail: the error exit releases every element up to the length, "
+                      "among them a slot that holds no container yet (release of an uninitialised object)" % (array, d, i.callee or "a function pointer"),
                       where=i.where(), witness=[i.where()])
     if not bad:
-        rep.ok("R17", tag + "vlo_array_expand/slot-visible-before-created", sample={"paths": npaths, "failing_calls_examined": n_throw, "length_changes": n_len})
-    rep.floor("R17", "calls that may fail in vlo_array_expand", n_throw, 2)
-    rep.floor("R17", "length changes of vlo_array followed", n_len, 3)
+        rep.ok("R17", key, sample={"paths": npaths, "failing_calls_examined": n_throw, "length_changes": n_len})
+    rep.floor("R17", "calls that may fail in " + fname, n_throw, 2)
+    rep.floor("R17", "length changes of %s followed" % array, n_len, 3)
 
 
 def rule_R17_cxx(ctx, rep, config="cxx-lib"):
-    """the C++ branch of vlo_array_expand (class vlo instead of the macros)"""
+    """the C++ branches (class vlo instead of the macros)"""
     rule_R17(ctx, rep, config="cxx-lib", tag="[c++] ")
